@@ -68,15 +68,10 @@ class StandardLengthType(DiagCodedType):
         if self.bit_mask is None:
             return None
 
+        # the mask is always returned in big endian byte order:
+        # EncodeState.emplace_atomic_value() applies the byte order
+        # of the object to the mask like it does for the value
         endianness: Literal["little", "big"] = "big"
-        if not self.is_highlow_byte_order and self.base_data_type in [
-                DataType.A_INT32, DataType.A_UINT32, DataType.A_FLOAT32, DataType.A_FLOAT64
-        ]:
-            # TODO (?): Technically, little endian A_UNICODE2STRING
-            # objects require a byte swap for each 16 bit letter, and
-            # thus also for the mask. I somehow doubt that this has
-            # been anticipated by the standard, though...
-            endianness = "little"
 
         if self.is_condensed:
             # if a condensed bitmask is specified, the number of bits
